@@ -13,6 +13,13 @@ package responder
 // Header maps handed to SetHeaders come from net/http: keys are canonical.
 //@ spec func specCanonKeys(h any) bool = forall k key :: in(h, k) ==> canonkey(k) == k
 
+// A new tunnel responder writes straight to the connection it was given (nothing is held
+// back in a buffer of its own) and starts with an empty header set.
+//@ props C10 C16
+//@ func NewRawHTTPResponder
+//@   nopanic
+//@   ensures [C10] result != nil && ident(result.writer) == ident(writer) && result.response != nil && result.response.Header != nil && (forall k key :: !in(result.response.Header, k))
+
 //@ props C08 C10 C01 C16
 //@ func RawHTTPResponder.SetHeader
 //@   nopanic
